@@ -4,7 +4,7 @@
    signals with a value table, the kind only; the full statement is
    Acme.C10.Proofs.import_signal_faithful_full_statement. *)
 From Coq Require Import String ZArith List.
-From Acme.C10 Require Import DbcDoc BusModel Import Bits BitsProofs Proofs ProofsEnum ProofsLayout ProofsFaithful ProofsMux ProofsExtMux ProofsDecode ProofsIds ProofsEnumMux ProofsAttrs ProofsAttrsAll ProofsTraverse ProofsAttrsSig ProofsExtAbs ProofsGroups.
+From Acme.C10 Require Import DbcDoc BusModel Import Bits BitsProofs Proofs ProofsEnum ProofsLayout ProofsFaithful ProofsMux ProofsExtMux ProofsDecode ProofsIds ProofsEnumMux ProofsAttrs ProofsAttrsAll ProofsTraverse ProofsAttrsSig ProofsExtAbs ProofsGroups ProofsDecodeMux.
 Import ListNotations.
 Open Scope Z_scope.
 
@@ -129,6 +129,17 @@ Theorem import_decode_dbc_imported : forall d b, import d = Ok b ->
     (d_messages d) (b_messages b).
 Proof. exact ProofsDecode.import_decode_dbc_imported. Qed.
 Print Assumptions import_decode_dbc_imported.
+
+(* the decode clause over the IMPORTED signal, messages WITH multiplexor switches (one or several, any nesting
+   depth; switch sizes not negative): every signal of the file is present under its index and name, and the raw
+   value the library's filters assemble at its ABSOLUTE position (relative positions summed along the chain of
+   multiplexers) with its size in the final enum table - the selector width for a multiplexer - and the message's
+   byte order is the value the DBC rule gives for the file's start bit, size and byte order (D08 placements
+   excluded as above) *)
+Theorem import_decode_dbc_mux : forall d b, import d = Ok b ->
+  Forall2 (fun dm m => decode_mux_ok (b_enums b) dm m) (d_messages d) (b_messages b).
+Proof. exact ProofsDecodeMux.import_decode_dbc_mux. Qed.
+Print Assumptions import_decode_dbc_mux.
 
 (* every imported message, every multiplexing depth: signal names distinct, signal ids distinct, and every
    imported signal carries the position index (in payload order) and the name of a signal of the file *)
